@@ -245,4 +245,91 @@ class SpecRun:
             if e.var.name in self.newvars:
                 return self.newvars[e.var.name]
             return self.L.read_var(self, e.var)
+        if isinstance(e, ast.Speculation):
+            return self.speculation(e)
+        if isinstance(e, ast.FuncCall):
+            return self.call(e)
+        if isinstance(e, ast.LengthLookup):
+            return self.length_of(e.source)
+        if isinstance(e, ast.ArrayLookup):
+            return self.array_lookup(e)
         raise NotImplementedError(f'spec: expression {type(e).__name__}')
+
+    # ---- statements and blocks (README "Blocks and functions") -----------------------------------------------------------
+    def exec_stmt(self, s):
+        from .vcg import ABlock
+        if isinstance(s, ast.Block):
+            return self.exec_block(s)
+        if isinstance(s, ast.Expression):
+            self.eval(s); return
+        if isinstance(s, ast.Declaration):
+            self.newvars[s.var.name] = self.eval_init(s.init); return
+        if isinstance(s, ast.IncAssignment) and isinstance(s.lookup, ast.VariableLookup):
+            s = s.type_equiv_assignment()           # x op= e  ==  x = x op e  (README "Augmented assignments")
+        if isinstance(s, ast.Assignment):
+            if isinstance(s.lookup, ast.VariableLookup):
+                v = self.eval(s.expr)
+                name = s.lookup.var.name
+                if name in self.newvars:
+                    self.newvars[name] = v
+                else:
+                    a, size = self.L.var_address(s.lookup.var)
+                    self.store(a, size, v)
+                return
+            return self.array_assign(s)
+        if isinstance(s, ast.ReturnStatement):
+            v = self.eval(s.value) if s.value is not None else None
+            raise Abrupt(Out('return', value=v))
+        if isinstance(s, ast.BreakStatement):
+            raise Abrupt(Out('break'))
+        if isinstance(s, ast.ContinueStatement):
+            raise Abrupt(Out('continue'))
+        raise NotImplementedError(f'spec: statement {type(s).__name__}')
+
+    def eval_init(self, e):
+        return self.eval(e)
+
+    def block_child(self, node):
+        e = self.next(f'execution of {node!r}')
+        if e[0] != 'child' or e[1].node is not node:
+            got = e[1].node if e[0] == 'child' else e[0]
+            raise Mismatch(f'source semantics executes {node!r} here, emitted code did {got!r}')
+        ev = e[2]
+        self.sync(ev.pre, f'at entry of {node!r}')
+        self.mem = ev.havoc(self.mem)
+        if ev.abnormal is not None:
+            kind = {'return': 'child-return', 'break': 'break', 'continue': 'continue', 'defeat': 'defeat', 'term': 'child-term'}[ev.abnormal]
+            raise Abrupt(Out(kind, what=ev.abnormal))
+
+    def exec_block(self, b):
+        from .vcg import ABlock
+        if isinstance(b, ABlock):
+            return self.block_child(b)
+        if isinstance(b, ast.CodeBlock):
+            for s in b.stmts:
+                self.exec_stmt(s)
+            return
+        if isinstance(b, ast.IfBlock):
+            c = self.eval(b.cond)
+            if self.decide(c != 0):
+                return self.exec_block(b.body)
+            return self.exec_block(b.else_block)
+        if isinstance(b, ast.LoopBlock):
+            # one trip from the loop head (the back edge is a cut point: Out('loop-back'))
+            c = self.eval(b.cond)
+            if not self.decide(c != 0):
+                return
+            try:
+                self.exec_block(b.body)
+            except Abrupt as a:
+                if a.out.kind == 'break':
+                    return
+                if a.out.kind != 'continue':
+                    raise
+            self.exec_block(b.cont)
+            raise Abrupt(Out('loop-back'))
+        if isinstance(b, ast.TryBlock):
+            return self.try_block(b)
+        if isinstance(b, ast.PreemptBlock):
+            return self.preempt_block(b)
+        raise NotImplementedError(f'spec: block {type(b).__name__}')
